@@ -56,6 +56,8 @@ func checkC20(c *Ctx, r *Report) {
 	c20APL(c, r)
 	r.rule("C20.R4.dedup-fold", 1, "Dedup's grouping key lower-cases exactly A-Z")
 	foldRangeRule(c, r, "C20.R4.dedup-fold", "normalizedString", "records whose owners differ only in the case of that letter are kept apart by Dedup although IsDuplicate calls them equal")
+	c20VerdictInputs(c, r, "C20.R1.verdict-inputs")
+	c20DedupOnce(c, r, "C20.R4.dedup-once")
 }
 
 // c20R5: sort.Slice(x, less): the less closure indexes x and nothing else with its two index parameters
